@@ -123,7 +123,7 @@ func (s *Server) rejectPrivateAndLoopbackIPAction(_ context.Context, in egress.I
 			ip = net.ParseIP("127.0.0.1")
 		} else if isWellKnownIPv6LocalDomainName {
 			ip = net.ParseIP("::1")
-		} else if literal := net.ParseIP(domainName); literal != nil {
+		} else if literal := parseIPLiteral(domainName); literal != nil {
 			// The domain name is an IP address literal.
 			ip = literal
 		} else {
@@ -188,6 +188,15 @@ func (s *Server) rejectPrivateAndLoopbackIPAction(_ context.Context, in egress.I
 	return egress.Action{
 		Action: appctlpb.EgressAction_REJECT,
 	}
+}
+
+// parseIPLiteral parses an IP address literal. Like the resolver, it accepts
+// an IPv6 zone (the part after '%') and ignores it.
+func parseIPLiteral(s string) net.IP {
+	if i := strings.IndexByte(s, '%'); i >= 0 {
+		s = s[:i]
+	}
+	return net.ParseIP(s)
 }
 
 func (s *Server) forwardToProxyAction(_ context.Context, req *model.Request) egress.Action {
